@@ -218,6 +218,12 @@ def build(s, reg):
     k = s[0]
     if k == "null":
         return None
+    if k == "let":                           # ["let", [shared specs], body]: objects that body refers to by ["ref", i]
+        for i, sub in enumerate(s[1]):
+            reg[("shared", i)] = build(sub, reg)
+        return build(s[2], reg)
+    if k == "ref":                           # the SAME Python object at every place that names it
+        return reg[("shared", s[1])]
     if k in ("bool", "int", "str"):
         return s[1]
     if k == "float":
@@ -855,6 +861,7 @@ def coqchk(run):
 def correspondence(run):
     if not run.quick and run.proof.get("ok"):
         coqchk(run)
+    correspondence_identity(run)
     cases = all_cases(run, run.n(1500, 30000))
     for i, c in enumerate(cases):
         kinds = tree_kinds(c.tin, set())
@@ -995,6 +1002,9 @@ def check_result(run, origin, path, t2l, s2l, tin, obs, exc, res):
             data.update({"offending_nodes": bad[:10], "result": repr(res)[:600],
                          "required": "only dict, list, tuple iff convertTuplesToLists is off, set iff convertSetsToLists is off, scalars"})
             run.fail("violation", "result of finalisation is not plain data: it contains a %s" % bad[0][1], data)
+        elif shared_mutables(res):
+            data.update({"result": repr(res)[:600], "required": "every list / dict / set of a result is an object of its own"})
+            run.fail("violation", "the same mutable container object occurs at two positions of the result", data)
         return
     if obs[0] == "other" and obs[1].startswith("unprintable"):
         bad = census(res, t2l, s2l)
@@ -1007,6 +1017,231 @@ def check_result(run, origin, path, t2l, s2l, tin, obs, exc, res):
                  "keys_without_plain_hashable_form": unhashable_after(tin, t2l, s2l)[:10] if tin is not None else None,
                  "required": "finalisation succeeds and yields plain data"})
     run.fail("violation", "finalisation raised %s on a value that evaluation produced" % errname, data)
+
+
+# --------------------------------------------------------------------------
+# identity: which list / dict / set OBJECTS does a result consist of  (Model/ConvertId.v)
+# --------------------------------------------------------------------------
+IHEADER = "From YV Require Import Model.Convert Model.ConvertId."
+MUT = {list: "IList", dict: "IDict", set: "ISet"}
+IK = {"VNull": "INull", "VBool": "IBool", "VInt": "IInt", "VFloat": "IFloat", "VStr": "IStr", "VTuple": "ITuple",
+      "VFDict": "IFDict", "VFSet": "IFSet", "VIter": "IIter", "VOrd": "IOrd", "VView": "IView"}
+
+
+def itree(obj, ids, reg=None, drain=False):
+    """like tree(), but every exact list / dict / set node carries the number of its OBJECT:
+    ids maps id(obj) -> number; unknown objects get the next number (first occurrence)."""
+    t = type(obj)
+    rec = lambda x: itree(x, ids, reg, drain)
+    if t in MUT:
+        if id(obj) not in ids:
+            ids[id(obj)] = len(ids)
+        n = ids[id(obj)]
+        if t is dict:
+            return ("IDict", n, [(rec(a), rec(b)) for a, b in obj.items()])
+        return (MUT[t], n, [rec(x) for x in obj])
+    if t is tuple:
+        return ("ITuple", [rec(x) for x in obj])
+    if t is utils.FrozenDict:
+        return ("IFDict", [(rec(a), rec(b)) for a, b in obj.items()])
+    if t is frozenset:
+        return ("IFSet", [rec(x) for x in obj])
+    if reg is not None and id(obj) in reg:
+        e = reg[id(obj)]
+        if e[0] == "VView":
+            return ("IView", VK[e[1]], [(rec(a), rec(b)) for a, b in e[2].items()])
+        return (IK[e[0]], [rec(x) for x in e[1]])
+    tr = tree(obj, reg, drain)               # scalars (and, for results, whatever else leaked)
+    if tr[0] in SCALARS:
+        return (IK[tr[0]],) + tuple(tr[1:])
+    raise Unsupported(t.__name__)
+
+
+def iterm(tr):
+    k = tr[0]
+    if k == "INull":
+        return "INull"
+    if k == "IBool":
+        return "(IBool %s)" % gal.boolean(tr[1])
+    if k in ("IInt", "IFloat"):
+        return "(%s %s)" % (k, gal.z(tr[1]))
+    if k == "IStr":
+        return "(IStr %s)" % gal.s(tr[1])
+    kv = lambda kvs: "(@nil (ival * ival))" if not kvs else gal.lst(gal.pair(iterm(a), iterm(b)) for a, b in kvs)
+    ls = lambda l: "(@nil ival)" if not l else gal.lst(iterm(x) for x in l)
+    if k == "IView":
+        return "(IView %s %s)" % (tr[1], kv(tr[2]))
+    if k == "IFDict":
+        return "(IFDict %s)" % kv(tr[1])
+    if k == "IDict":
+        return "(IDict %s %s)" % (gal.nat(tr[1]), kv(tr[2]))
+    if k in ("IList", "ISet"):
+        return "(%s %s %s)" % (k, gal.nat(tr[1]), ls(tr[2]))
+    return "(%s %s)" % (k, ls(tr[1]))
+
+
+def icells(tr, out=None):
+    out = [] if out is None else out
+    k = tr[0]
+    if k in ("IList", "ISet"):
+        out.append(tr[1])
+        for x in tr[2]:
+            icells(x, out)
+    elif k == "IDict":
+        out.append(tr[1])
+        for a, b in tr[2]:
+            icells(a, out)
+            icells(b, out)
+    elif k in ("IFDict",):
+        for a, b in tr[1]:
+            icells(a, out)
+            icells(b, out)
+    elif k == "IView":
+        for a, b in tr[2]:
+            icells(a, out)
+            icells(b, out)
+    elif k in ("ITuple", "IFSet", "IIter", "IOrd"):
+        for x in tr[1]:
+            icells(x, out)
+    return out
+
+
+def gen_alias_spec(rng):
+    """host values in which the same mutable object occurs at several places"""
+    def plain(depth):
+        if depth <= 0 or rng.random() < 0.3:
+            return gen_scalar(rng)
+        k = rng.choice(["list", "list", "dict", "set", "tuple"])
+        n = rng.choice([0, 1, 2, 2])
+        if k == "dict":
+            return ["dict", [[gen_scalar(rng), plain(depth - 1)] for _ in range(n)]]
+        if k == "set":           # at most one element: a set's iteration order changes when input conversion rebuilds it
+            return ["set", [gen_scalar(rng) for _ in range(min(n, 1))]]
+        return [k, [plain(depth - 1) for _ in range(n)]]
+    shared =[plain(2) for _ in range(rng.choice([1, 2, 3]))]
+    shared = [x if x[0] in ("list", "dict", "set", "tuple") else ["list", [x]] for x in shared]
+
+    def body(depth):
+        r = rng.random()
+        if r < 0.35:
+            return ["ref", rng.randrange(len(shared))]
+        if depth <= 0 or r < 0.5:
+            return gen_scalar(rng)
+        n = rng.choice([1, 2, 2, 3])
+        k = rng.choice(["list", "list", "tuple", "dict", "fdict", "iter", "ord", "view", "fset"])
+        if k in ("list", "tuple", "ord"):
+            return [k, [body(depth - 1) for _ in range(n)]]
+        if k == "iter":
+            return ["iter", rng.choice(ITER_KINDS), [body(depth - 1) for _ in range(n)]]
+        if k in ("dict", "fdict"):
+            return [k, [[gen_scalar(rng), body(depth - 1)] for _ in range(n)]]
+        if k == "view":
+            return ["view", rng.choice(["values", "items"]), rng.choice(["dict", "fdict"]),
+                    [[gen_scalar(rng), body(depth - 1)] for _ in range(n)]]
+        return ["fset", [gen_scalar(rng) for _ in range(min(n, 1))]]
+    return ["let", shared, ["list" if rng.random() < 0.7 else "tuple", [body(3) for _ in range(rng.choice([2, 3, 4]))]]]
+
+
+class ICase:
+    """one identity observation: the numbered input, the numbered result"""
+
+    def __init__(self, spec, path, t2l, s2l):
+        self.spec, self.path, self.t2l, self.s2l = spec, path, t2l, s2l
+        self.via_input = path in ("dollar", "iface", "iface_stub", "yaql_eval", "dollar_newctx")
+        reg = {}
+        self.obj = build(spec, reg)                  # kept alive: ids must not be recycled
+        self.reg = reg
+        ids = {}
+        self.tin = itree(self.obj, ids, reg)
+        self.n = len(ids)
+        run_ = run_dollar if self.via_input else run_out
+        obs, self.exc, self.res = run_(path, self.obj, t2l, s2l)
+        self.obs = obs
+        self.tout = None
+        if obs[0] == "val":
+            try:
+                self.tout = itree(self.res, ids, None, drain=True)
+            except Unsupported:
+                self.obs = ("other", "non-plain result")
+
+    def term(self):
+        o = "(IOVal %s)" % iterm(self.tout) if self.tout is not None else ("IOErr" if self.obs[0] == "err" else "IOOther")
+        return "{| i_opts := %s; i_via_input := %s; i_n := %s; i_in := %s; i_obs := %s |}" % (
+            opts_term(self.t2l, self.s2l), gal.boolean(self.via_input), gal.nat(self.n), iterm(self.tin), o)
+
+    def verdict(self):
+        """the property's own predicate on the observed objects"""
+        if self.tout is None:
+            return None
+        cs = icells(self.tout)
+        old = sorted({c for c in cs if c < self.n})
+        if old:
+            return ("a mutable container of the result IS a container of the input value",
+                    {"aliased_objects": old})
+        dup = sorted({c for c in cs if cs.count(c) > 1})
+        if dup:
+            return ("the same mutable container object occurs at two positions of the result", {"shared_objects": dup})
+        return None
+
+    def data(self, extra=None):
+        d = {"kind": "identity", "path": self.path, "origin": {"spec": self.spec},
+             "options": {"convertTuplesToLists": self.t2l, "convertSetsToLists": self.s2l},
+             "input_objects": self.n, "numbered_input": repr(self.tin)[:1500],
+             "numbered_result": repr(self.tout)[:1500] if self.tout is not None else list(self.obs),
+             "required": "every list / dict / set of the result is a new object: none of the input's, none used twice "
+                         "(theorem C10_output_fresh)"}
+        d.update(extra or {})
+        return d
+
+
+IPATHS = ["direct", "direct", "dollar_raw", "dollar", "dollar", "iface", "iface_stub"]
+
+
+def correspondence_identity(run):
+    rng = run.rng
+    cases = []
+    for _ in range(run.n(250, 5000)):
+        spec = gen_alias_spec(rng)
+        path = rng.choice(IPATHS)
+        for (t2l, s2l) in OPTS:
+            c = ICase(spec, path, t2l, s2l)
+            cases.append(c)
+            run.case(("identity", path, t2l, s2l, spec), nontrivial=True)
+            run.count("kind:KFresh/%s" % path)
+            run.count("identity-obs:" + c.obs[0])
+    bad = set(run.coq_mismatches(IHEADER, "icase", "icase_ok", [c.term() for c in cases], shard=150))
+    nrep = 0
+    for i, c in enumerate(cases):
+        v = c.verdict()
+        if v:
+            run.fail("violation", v[0], c.data(v[1]))
+        elif i in bad and nrep < 5:
+            nrep += 1
+            run.fail("mismatch", "identity model and implementation disagree via %s" % c.path, c.data())
+    for c in cases:                                   # release the objects
+        c.obj = c.res = c.reg = None
+
+
+def shared_mutables(res, forbidden=None):
+    """ids of list/dict/set objects that occur twice in a result, or that are forbidden (host objects)"""
+    seen, bad = set(), []
+
+    def walk(x):
+        t = type(x)
+        if t in MUT:
+            if id(x) in seen or (forbidden and id(x) in forbidden):
+                bad.append(t.__name__)
+                return
+            seen.add(id(x))
+        if t is dict:
+            for a, b in x.items():
+                walk(a)
+                walk(b)
+        elif t in (list, tuple, set):
+            for y in x:
+                walk(y)
+    walk(res)
+    return bad
 
 
 # --------------------------------------------------------------------------
@@ -1270,6 +1505,9 @@ def replay(run, data):
         b = eval_expr(d["expr"], d.get("data"), t2l, s2l, per_expression_options=d["per_expression_options"])[0]
         return canon_obs(a) == canon_obs(b)
     t2l, s2l = o["convertTuplesToLists"], o["convertSetsToLists"]
+    if d.get("kind") == "identity":
+        c = ICase(d["origin"]["spec"], d["path"], t2l, s2l)
+        return c.verdict() is None and not run.coq_mismatches(IHEADER, "icase", "icase_ok", [c.term()])
     if d.get("kind") == "history":
         return history_check(None, d["origin"]["expr"], d["origin"]["datas"], t2l, s2l, d["steps"]) is None
     if d.get("kind") == "engines":
